@@ -15,16 +15,16 @@ Lemma get_none_iff a ls : get a ls = None <-> containsS a ls = false.
 Proof.
   induction ls as [|l r IH]; [cbn; tauto|].
   cbn [get]. unfold containsS in *. rewrite !contains_cons.
-  destruct (lookup a l); destruct (lookup (strip a) l); cbn; rewrite ?orb_true_r; try (split; discriminate).
+  destruct (lookup a l); destruct (lookup (unspaced a) l); cbn; rewrite ?orb_true_r; try (split; discriminate).
   exact IH.
 Qed.
 
-Lemma get_in a ls k : get a ls = Some k -> In (a, k) (abs ls) \/ In (strip a, k) (abs ls).
+Lemma get_in a ls k : get a ls = Some k -> In (a, k) (abs ls) \/ In (unspaced a, k) (abs ls).
 Proof.
   induction ls as [|l r IH]; [discriminate|]. cbn [get]. unfold abs in *. cbn [concat]. rewrite !in_app_iff.
   destruct (lookup a l) eqn:E1.
   - intros [= ->]. left. left. apply lookup_in. exact E1.
-  - destruct (lookup (strip a) l) eqn:E2.
+  - destruct (lookup (unspaced a) l) eqn:E2.
     + intros [= ->]. right. left. apply lookup_in. exact E2.
     + intros H. destruct (IH H); tauto.
 Qed.
@@ -67,9 +67,10 @@ Section WithSort.
 
   Lemma contains_iff_s s a : SInv s -> (containsS a (lays s) = true <-> exists i, In i (keys s) /\ selects i a).
   Proof.
-    intros HS. pose proof HS as (HI & _). unfold containsS, selects. rewrite orb_true_iff, !contains_iff_pairs by exact HI. split.
-    - intros [[k Hk]|[k Hk]]; destruct (pair_to_key s _ k HS Hk) as [i [H1 [H2 H3]]]; exists i; auto.
-    - intros [i [H1 [H2|H2]]]; [left|right]; exists (kid i); apply key_to_pair; assumption.
+    intros HS. pose proof HS as (HI & _). unfold containsS. rewrite orb_true_iff, !contains_iff_pairs by exact HI. split.
+    - intros [[k Hk]|[k Hk]]; destruct (pair_to_key s _ k HS Hk) as [i [H1 [H2 H3]]]; exists i; split; auto;
+        apply selects_unspaced; auto.
+    - intros [i [H1 H2]]. apply selects_unspaced in H2. destruct H2 as [H2|H2]; [left|right]; exists (kid i); apply key_to_pair; assumption.
   Qed.
 
   Lemma get_key_sound_s s a i : SInv s -> get_key s a = Some i -> In i (keys s) /\ selects i a.
@@ -78,7 +79,7 @@ Section WithSort.
     apply find_key_some in Hf as [Hi Hk]. split; [exact Hi|].
     pose proof HS as (_ & _ & Hnd & _).
     destruct (get_in _ _ _ E) as [H|H]; destruct (pair_to_key s _ k HS H) as [j [H1 [H2 H3]]];
-      assert (j = i) by (apply (kid_inj (keys s)); auto; congruence); subst j; [left|right]; exact H3.
+      assert (j = i) by (apply (kid_inj (keys s)); auto; congruence); subst j; apply selects_unspaced; [left|right]; exact H3.
   Qed.
 
   Lemma get_key_total_s s a : SInv s -> containsS a (lays s) = true -> exists i, get_key s a = Some i.
@@ -112,6 +113,26 @@ Section WithSort.
     intros H. assert (Hc : containsS a (lays (run sort ops)) = false).
     { destruct (containsS a (lays (run sort ops))) eqn:E; [|reflexivity]. apply contains_iff in E as [i [H1 H2]]. exfalso. exact (H i H1 H2). }
     split; [exact Hc|]. unfold get_key. apply get_none_iff in Hc. rewrite Hc. reflexivity.
+  Qed.
+
+  (* ---- with keyring.key(message): the first issuer / recipient the keyring knows; KeyError when it knows none ---- *)
+  Theorem issuers_sound ops iss j : get_key_issuers (run sort ops) iss = Some j ->
+    exists a, In a iss /\ In j (loaded_after ops) /\ selects j a.
+  Proof.
+    unfold get_key_issuers. destruct (find (fun i => containsS i (lays (run sort ops))) iss) as [a|] eqn:E; [|discriminate].
+    intros H. apply find_some in E as [Ha _]. exists a. split; [exact Ha|]. apply get_sound. exact H.
+  Qed.
+
+  Theorem issuers_keyerror_iff ops iss :
+    get_key_issuers (run sort ops) iss = None <-> forall a i, In a iss -> In i (loaded_after ops) -> ~ selects i a.
+  Proof.
+    unfold get_key_issuers. destruct (find (fun i => containsS i (lays (run sort ops))) iss) as [a|] eqn:E; split.
+    - intros H. exfalso. apply find_some in E as [Ha Hc]. apply contains_iff in Hc as [i [H1 H2]].
+      destruct (get_total ops a i H1 H2) as [j [Hj _]]. congruence.
+    - intros H. exfalso. apply find_some in E as [Ha Hc]. apply contains_iff in Hc as [i [H1 H2]]. exact (H a i Ha H1 H2).
+    - intros _ a i Ha Hi Hs. pose proof (find_none _ _ E a Ha) as Hc. cbn in Hc.
+      assert (containsS a (lays (run sort ops)) = true) by (apply contains_iff; eauto). congruence.
+    - reflexivity.
   Qed.
 
   Lemma filter_true {A} (l : list A) : filter (fun _ => true) l = l.
@@ -186,3 +207,53 @@ Qed.
 (* the code as it is now keeps it (instance of the general theorem, shown on the same history) *)
 Lemma repaired_keeps_alias : In (name_x, 2) (abs (lays (run isort f5_history))).
 Proof. vm_compute. tauto. Qed.
+
+(* ------------------------------------------------------------------------------------------------ *)
+(* the code before commit 48f9d25: blanks were ignored in EVERY identifier, so two names differing    *)
+(* only by blanks select each other's keys                                                            *)
+(* ------------------------------------------------------------------------------------------------ *)
+Definition name_john_smith : alias := [74; 111; 104; 110; 32; 83; 109; 105; 116; 104].     (* "John Smith" *)
+Definition name_johnsmith : alias := [74; 111; 104; 110; 83; 109; 105; 116; 104].           (* "JohnSmith" *)
+Definition mkkeyn (id : Z) (fp name : alias) : key :=
+  ({| kid := id; kfp := fp; kuids := [{| u_name := name; u_comment := []; u_email := [] |}];
+      kcreated := id; kpublic := false; kprimary := true; kparentless := true |}, []).
+Definition keyJ := mkkeyn 3 [67; 67] name_john_smith. Definition keyJS := mkkeyn 4 [68; 68] name_johnsmith.
+Definition js_history : list op := [Load keyJ; Load keyJS; Unload keyJ].
+
+Lemma john_smith_not_grouped_id : ~ id_shape (strip name_john_smith).
+Proof. intros [[H|[H|H]] _]; vm_compute in H; discriminate H. Qed.
+Lemma keyJS_not_john_smith : ~ selects (fst keyJS) name_john_smith.
+Proof.
+  intros H. apply selects_literal in H; [|exact john_smith_not_grouped_id].
+  destruct H as [H|[H|[H|[u [[<-|[]] [H|[[H _]|[H _]]]]]]]]; vm_compute in H; discriminate H.
+Qed.
+
+(* with only "JohnSmith" loaded the old lookup hands out his key for "John Smith" (key() was sound only for the old reading) ... *)
+Lemma get_sound_old_refuted :
+  exists ops a j, get_key_old (run_old isort ops) a = Some j /\ In j (loaded_after ops) /\ ~ selects j a.
+Proof.
+  exists [Load keyJS], name_john_smith, (fst keyJS). split; [vm_compute; reflexivity|]. split; [vm_compute; auto|].
+  exact keyJS_not_john_smith.
+Qed.
+(* ... and "John Smith" stays `in` the keyring after his own key has been unloaded *)
+Lemma unloaded_selects_nothing_old_refuted :
+  exists ops a, (forall i, In i (loaded_after ops) -> ~ selects i a) /\
+    containsS_old a (lays (run_old isort ops)) = true /\ get_key_old (run_old isort ops) a <> None.
+Proof.
+  exists js_history, name_john_smith. split; [|split; vm_compute; [reflexivity|discriminate]].
+  intros i Hi. assert (E : loaded_after js_history = [fst keyJS]) by (vm_compute; reflexivity).
+  rewrite E in Hi. destruct Hi as [<-|[]]. exact keyJS_not_john_smith.
+Qed.
+(* the same histories on the code as it is now (instances of get_sound / unloaded_selects_nothing) *)
+Lemma repaired_names_literal :
+  get_key (run isort [Load keyJS]) name_john_smith = None /\
+  containsS name_john_smith (lays (run isort js_history)) = false /\
+  get_key (run isort js_history) name_johnsmith = Some (fst keyJS).
+Proof. vm_compute. auto. Qed.
+(* a fingerprint-shaped identifier written in groups is still found: 8 hexadecimal digits as "DEAD BEEF" *)
+Definition id_deadbeef : alias := [68; 69; 65; 68; 66; 69; 69; 70].
+Definition id_dead_beef : alias := [68; 69; 65; 68; 32; 66; 69; 69; 70].
+Definition keyH := mkkeyn 5 id_deadbeef name_x.
+Lemma repaired_grouped_id_found :
+  unspaced id_dead_beef = id_deadbeef /\ get_key (run isort [Load keyH]) id_dead_beef = Some (fst keyH).
+Proof. vm_compute. auto. Qed.
